@@ -28,6 +28,7 @@ def run(ctx):
     hs += C.c05_drop_full_queue_histories(ctx.rng)
     hs += C.c12_mixed_array_histories(ctx.rng, nmax=2)
     hs += C.c18_sid_reuse_histories(ctx.rng)
+    hs += C.c05_dup_sid_histories(ctx.rng)
     # serde's SEQUENCE forms of the derived structs (Notification / SubscriptionPayload / ErrorObject as JSON arrays)
     hs += C.seqform_histories(ctx.rng, reps=ctx.scale(3, 40))
     hs += random_histories(ctx, ctx.scale(1500, 150000))
